@@ -21,7 +21,7 @@ func init() {
 	register("C19", PropertyMeta{
 		Technique: "field-ownership audit of the recency order + decision tables of the directory operations + guard dominance at every victim-selection site",
 		Explanation: "Decides on mem/cache/directory_ops.go and its six victim-selection call sites: the recency order of a set is written only by DirectoryVisit (remove the way if listed, append it: a permutation stays a permutation) and DirectoryReset (identity); DirectoryFindVictim returns, while scanning in recency order, only a block that is neither locked nor being read; lookup and victim selection map an address to its set with the same function; " +
-			"at every call site, every use of the selected victim (the calls that evict, fetch into or write it) is dominated by the failing branches of `IsLocked` and `ReadCount > 0` tests on that victim, so the fallback (least recent block when all are busy) is never replaced while busy. (reader-count-steps) a block's outstanding-reader count is only ever incremented or decremented by one, never assigned. (tag-install-sets-pid) every function that stores a block's Tag also stores its PID.",
+			"at every call site, every use of the selected victim (the calls that evict, fetch into or write it) is dominated by the failing branches of `IsLocked` and `ReadCount > 0` tests on that victim, so the fallback (least recent block when all are busy) is never replaced while busy. (reader-count-steps) a block's outstanding-reader count is only ever incremented or decremented by one, never assigned. (tag-install-sets-pid) every function that stores a block's Tag also stores its PID. (invalidate-inflight) the write-back cache's Invalidate handler looks at IsLocked/ReadCount or the in-flight transactions (reported as a known finding today).",
 		NotDecided:  "reader counts never negative; uniqueness of valid tags per process — both depend on cross-event transaction flows.",
 		Assumptions: []string{},
 	}, runC19)
@@ -310,6 +310,7 @@ func runC17(c *Ctx) {
 }
 
 func runC19(c *Ctx) {
+	invalidateInflightRule(c, "invalidate-inflight", []string{"mem/cache/writeback"})
 	tagInstallSetsPIDRule(c, "tag-install-sets-pid", 5)
 	readerCountRule(c, "reader-count-steps")
 	idempotentStallRule(c, "idempotent-stall", func(pp string) bool { return strings.HasPrefix(pp, ModPath+"/mem/cache") }, 10)
